@@ -171,6 +171,12 @@ def Cls.ofName? : String → Option Cls
   | "ackStatus" => some .ackStatus
   | _ => none
 
+/-- Lock classes on which the crate makes a NON-blocking acquisition (`try_lock`, `try_read`, `try_write`, timed forms).
+    None: in every program of the table an acquisition WAITS and then succeeds, which is what the steps of Layer A and
+    Layer B model (an action that needs a lock is disabled while another thread owns it, and never "gives up").
+    A non-blocking acquisition observed in the lock log is therefore a behaviour the model does not have. -/
+def tryAcquired : List Cls := []
+
 /-- schedule points of the hooks that are blocking channel operations: nothing may be held there -/
 def blockingChannelPoints : List String := ["cmd.send", "buf.send_shutdown", "worker.recv", "worker.drain", "consumer.recv"]
 
